@@ -54,9 +54,11 @@ let run (lines : string list) =
       let dflt = List.mem "default" tok in
       let get name d = if dflt then d else match opt tok name with Some v -> v | None -> d in
       let keys = get "keys" "str" and hk = get "hash" "string" in
-      let cap = n_of_string (get "cap" "16") in
-      let (num, den) = match String.split_on_char '/' (get "lf" "3/4") with
-        | [x; y] -> (n_of_string x, n_of_string y) | _ -> failwith "bad lf" in
+      (* defaults are the source's own (cc_hashtable_conf_init), through the translated constants *)
+      let cap = (match (if dflt then None else opt tok "cap") with Some v -> n_of_string v | None -> hASHTABLE_DEFAULT_CAPACITY) in
+      let (num, den) = (match (if dflt then None else opt tok "lf") with
+        | Some v -> (match String.split_on_char '/' v with [x; y] -> (n_of_string x, n_of_string y) | _ -> failwith "bad lf")
+        | None -> (hASHTABLE_DEFAULT_LOAD_FACTOR_num, hASHTABLE_DEFAULT_LOAD_FACTOR_den)) in
       let seed = n_of_string (get "seed" "0") in
       let tg = if get "mem" "libc" = "conf" then Conf else Libc in
       pool := (match opt tok "pool" with Some p -> nlist p | None -> []);
